@@ -26,6 +26,8 @@ WORKER = str(Path(__file__).resolve().parent / "detworker.py")
 FW_OPS = {"create1": "create1", "create1json": "create1", "reuse1": "create1", "create2": "create2", "cache": "cache", "encrypt": "encrypt",
           "create3": "create3", "create3perm": "create3perm"}
 CWD_OPS = {"create3rel"}
+EXT_OPS = ("extractA", "extractB", "signrecA", "signrecB", "bootB", "bootcfg", "updateB", "signB", "parseyamlA", "parseyamlB", "convertA",
+           "convertB", "mpimerge", "cachemerge", "geninfo")
 
 
 def prepare(ctx, d: Path):
@@ -111,6 +113,22 @@ def prepare(ctx, d: Path):
     (d / "multi2.suit").write_bytes(make_env(ctx, d, ctx.rng, 905, [("#x0", envgen.blob(15, 92))], [("#beta.suit", mid2)]))
     keys = signrun.Keys(d / "keys")
     (d / "keys" / "fwenc.bin").write_bytes(os.urandom(32))
+    # inputs of the extended alphabet (Determinism_MC2)
+    sh2 = envgen.random_shape(ctx.rng, maxdepth=0, small=True)
+    sh2.update({"pad": None, "deps": [], "cid": ["last", "nordicsemi.com", "nRF54H20_sample_rad"], "pay": [["#q", 21, "hex", 6]]})
+    (d / "env2.suit").write_bytes(toolrun.create_lib(envgen.Builder(d / "b2").desc(sh2, toolrun.create_lib)))
+    (d / "boot.config").write_text('SB_CONFIG_SUIT_MPI_APP_LOCAL_3=y\nSB_CONFIG_SUIT_MPI_APP_LOCAL_3_VENDOR_NAME="ACME Corp"\n'
+                                   'SB_CONFIG_SUIT_MPI_APP_LOCAL_3_CLASS_NAME="acme app"\n')
+    (d / "empty.bin").write_bytes(b"")
+    from . import sigverify as sv
+    (d / "keyA.pem").write_bytes(sv.pem(sv.gen_private("p256")))
+    (d / "keyB.pem").write_bytes(sv.pem(sv.gen_private("ed25519")))
+    ss, kms = signrun.sign_scripts()
+    common = {"sign-script": ss, "kms-script": kms, "context": str(d / "keys"), "alg": "eddsa"}
+    (d / "recA.json").write_text(json.dumps(dict(common, **{"key-name": "ked", "key-id": "0x21", "dependencies": {
+        "#dep_a": {"key-name": "ked", "key-id": "0x22"}}})))
+    (d / "recB.json").write_text(json.dumps(dict(common, **{"key-name": "ked", "key-id": "0x31", "dependencies": {
+        "#beta.suit": {"key-name": "ked", "key-id": "0x32", "dependencies": {"#gamma.suit": {"key-name": "ked", "key-id": "0x33"}}}}})))
     return keys
 
 
@@ -129,7 +147,7 @@ def work(d: Path, schedules, seed: str, tag: str):
 def normalise(op, outs, keys, terms):
     """bytes whose identity is the output of the operation (signature value / IV / ciphertext erased)."""
     raw = [base64.b64decode(o) for o in outs]
-    if op == "sign" and raw:
+    if op in ("sign", "signB") and raw:
         try:
             e = project.project_env(raw[0], terms, keys.pub)
             blocks = [[b["signer"], b["alg"], b["kid"], b["over"], b["shape"], b["width"]] for b in e["blocks"]]
@@ -160,7 +178,12 @@ def run(ctx: core.Check):
                        "Distinct & non-trivial = distinct (schedule, position) pairs executed after at least one other operation.")
     g = ctx.mc("Determinism_MC", "Determinism_MC.cfg", workers=1, coverage=False, label="A:model-check + B:schedule enumeration")
     scheds = g.tagged("SCN")
+    g2 = ctx.mc("Determinism_MC", "Determinism_MC2.cfg", workers=1, coverage=False, label="A:model-check + B:schedules over the extended alphabet")
+    s2 = g2.tagged("SCN")
     ctx.rng.shuffle(scheds)
+    ctx.rng.shuffle(s2)
+    # interleave: every second schedule comes from the extended alphabet
+    scheds = [x for pair in zip(scheds, s2 + s2[: max(0, len(scheds) - len(s2))]) for x in pair]
     extra = [["sign", "create1", "sign", "encrypt"], ["encrypt", "touch_fw", "encrypt", "sign"], ["mpi", "update", "mpi", "boot"],
              ["update", "chdir", "update", "mpi"], ["create1", "touch_fw", "create1json", "reuse1"], ["cache", "touch_fw", "cache", "create2"],
              ["cachenv", "create1", "cachenv2", "cachenv"], ["parse", "cachenv2", "chdir", "cachenv"], ["create3", "touch_fw", "create3", "create3perm"],
@@ -178,7 +201,7 @@ def run(ctx: core.Check):
     for op in ("create1", "create1json", "reuse1", "create2", "cache", "encrypt", "create3", "create3perm"):
         ref_jobs += [(op, 1, [[op]]), (op, 2, [["touch_fw", op]])]
     ref_jobs += [("create3rel", 1, [["create3rel"]]), ("create3rel", 1, [["chdir", "create3rel"]])]
-    for op in ("parse", "boot", "update", "mpi", "sign", "cachenv", "cachenv2", "parsehA", "parsehB"):
+    for op in ("parse", "boot", "update", "mpi", "sign", "cachenv", "cachenv2", "parsehA", "parsehB") + EXT_OPS:
         ref_jobs.append((op, 1, [[op]]))
     ctx.note(f"Use C: {len(ref_jobs) * len(seeds)} fresh-interpreter references")
 
@@ -191,7 +214,7 @@ def run(ctx: core.Check):
 
     def work_in_copy(wd, sched, seed):
         # the descriptions name absolute paths under d: run in d-relative layout by rewriting the copies
-        for f in ("d1.yaml", "d1.json", "d2.yaml", "d3.json", "d3p.json", "d3rel.json"):
+        for f in ("d1.yaml", "d1.json", "d2.yaml", "d3.json", "d3p.json", "d3rel.json", "recA.json", "recB.json"):
             (wd / f).write_text((wd / f).read_text().replace(str(d) + "/", str(wd) + "/"))
         return work(wd, sched, seed, "ref")
 
